@@ -69,6 +69,7 @@ def showN (r : Option (OutN × List EvN)) (fdef : Pt → Option Rat) : String :=
       "ok " ++ toString (bitsOf m) ++ " " ++ toString pmin.length ++ " " ++ showQs pmin ++ " " ++ showQ fmin ++ " " ++ toString s.nfunc ++ " " ++
         toString s.y.length ++ " " ++ showQs s.y ++ " " ++ " ".intercalate (s.p.map showQs) ++ " " ++ t
     | .nmax => "err " ++ t
+    | .shape => "err shape"
     | .fuel => "undef"
 
 /-- one member of an object-reuse sequence: overload tag, its simplex (the documented one for the
@@ -79,7 +80,7 @@ def pMember : P (Arg × List Tok) := do
   | "nm" => do let pp ← pList pRats; let pr ← pProg; pure (.simplex pp, pr)
   | "nmd" => do
       let st ← pRats; let ds ← pRats; let pr ← pProg
-      pure (.simplex (if ds.length < st.length then [] else simplexOf rndD st ds), pr)
+      pure (.simplex (if st = [] ∨ ds.length ≠ st.length then [] else simplexOf rndD st ds), pr)
   | "nm1" => do
       let st ← pRats; let d ← pRat; let pr ← pProg
       pure (.simplex (simplexOf rndD st (List.replicate st.length d)), pr)
